@@ -1010,7 +1010,7 @@ fn eval_c25(case: &Case, acc: &Acc) -> Vec<Violation> {
 const NT_MENU: [&str; 26] = [
     "AB", "A_b", "a_b", "Ab", "A1", "A_1", "A", "A0", "type", "Self", "self", "fn", "match", "Token", "Result", "Box", "Vec", "Option", "ASTType", "GramTrait", "GramAuto", "Gram", "Plus", "EndOfInput", "Error", "SList",
 ];
-const T_MENU: [&str; 16] = ["'+'", "\"a-b\"", "\"a_b\"", "'1'", "'_'", "'a b'", "/[0-9]+/", "'\\\\'", "'Plus'", "'plus'", "'é'", "'::'", "'type'", "'a' ?= 'b'", "'a' ?! 'b'", "'%'"];
+const T_MENU: [&str; 18] = ["'\\1'", "/\\\\2x/", "'+'", "\"a-b\"", "\"a_b\"", "'1'", "'_'", "'a b'", "/[0-9]+/", "'\\\\'", "'Plus'", "'plus'", "'é'", "'::'", "'type'", "'a' ?= 'b'", "'a' ?! 'b'", "'%'"];
 const M_MENU: [&str; 8] = ["type", "self", "m", "M", "r", "a_b", "aB", "fn"];
 
 fn c33_grammars(tier: Tier) -> Vec<String> {
